@@ -412,6 +412,24 @@ theorem text_roundtrip (c : Codec) (D : Str → Prop) (hc : c.Faithful D) (t : T
   text_roundtrip_given_bin_roundtrip c D hc t hd
     (fun a ha => text_bin_roundtrip c D hc t hd hkeys a ha (small a ha))
 
+/-- Consequently serialisation loses nothing that `from_bytes` reports: two archives of the domain
+with the same format and byte order that serialise to the same bytes have the same title (UTF-16
+format), the same keys in the same order and the same messages. -/
+theorem text_serialize_injective (c : Codec) (D : Str → Prop) (hc : c.Faithful D)
+    (t t' : TextArchive) (hd : InDomain D t) (hd' : InDomain D t')
+    (hkeys : ∀ k ∈ keysOf t.entries, D k) (hkeys' : ∀ k ∈ keysOf t'.entries, D k)
+    (small : ∀ a, buildArchive c t = .ok a → Ser.imageSize c a < 2 ^ 32)
+    (small' : ∀ a, buildArchive c t' = .ok a → Ser.imageSize c a < 2 ^ 32)
+    (hf : t.format = t'.format) (he : t.endian = t'.endian)
+    (h : TextArchive.serialize c t = TextArchive.serialize c t') : expected t = expected t' := by
+  obtain ⟨b, hs, hr⟩ := text_roundtrip c D hc t hd hkeys small
+  obtain ⟨b', hs', hr'⟩ := text_roundtrip c D hc t' hd' hkeys' small'
+  have e : b = b' := by have := hs.symm.trans (h.trans hs'); injection this
+  subst e
+  rw [hf, he] at hr
+  have := hr.symm.trans hr'
+  injection this
+
 /-- The round trip with no assumption about the text encoding left: the executable sub-codec
 `sjisSub` is faithful on its whole alphabet (`Mila.sjisSub_faithful`). -/
 theorem text_roundtrip_sjisSub (t : TextArchive) (hd : InDomain Sjis.SubDomain t)
